@@ -29,13 +29,13 @@ type lockSpec struct {
 }
 
 type lockNeed struct {
-	Mode   int
-	Held   int
-	What   string
-	Instr  ssa.Instruction
-	Fn     *ssa.Function
-	Chain  []string
-	Key    string
+	Mode  int
+	Held  int
+	What  string
+	Instr ssa.Instruction
+	Fn    *ssa.Function
+	Chain []string
+	Key   string
 }
 
 type lockAnalysis struct {
